@@ -385,6 +385,39 @@ pub struct Ref {
     pub lo: f64,
 }
 
+/// A word that only accepts a number handed over as `f64` (`visit_f64`).
+/// serde's own `f64` impl also accepts integers and `f32` and casts them; the
+/// property is silent about such records, so the real-format legs run both
+/// `Ref` and `RefStrict` and treat a record on which they disagree as
+/// unspecified (safety only).
+#[derive(Debug, Clone, Copy)]
+#[allow(dead_code)]
+pub struct StrictF64(pub f64);
+
+impl<'de> Deserialize<'de> for StrictF64 {
+    fn deserialize<D: serde::Deserializer<'de>>(d: D) -> Result<Self, D::Error> {
+        struct V;
+        impl serde::de::Visitor<'_> for V {
+            type Value = StrictF64;
+            fn expecting(&self, f: &mut std::fmt::Formatter) -> std::fmt::Result {
+                f.write_str("a number typed as f64")
+            }
+            fn visit_f64<E: serde::de::Error>(self, v: f64) -> Result<StrictF64, E> {
+                Ok(StrictF64(v))
+            }
+        }
+        d.deserialize_f64(V)
+    }
+}
+
+#[derive(Deserialize, Debug)]
+#[serde(deny_unknown_fields)]
+#[allow(dead_code)]
+pub struct RefStrict {
+    pub hi: StrictF64,
+    pub lo: StrictF64,
+}
+
 pub fn derive_model(entries: &[Entry], d: &Delivery) -> Result<(u64, u64), ()> {
     let mut run = d.run(entries);
     match Ref::deserialize(&mut run) {
@@ -888,6 +921,21 @@ pub fn shrink(c: &DeCase) -> Vec<DeCase> {
             }
             StorageFault::Truncate { tokens } if *tokens > 0 => alts.push(StorageFault::Truncate { tokens: tokens - 1 }),
             StorageFault::TypeConfuse { entry, .. } => alts.push(StorageFault::TypeConfuse { entry: *entry, slot: Slot::Unit }),
+            StorageFault::SetWord { entry, bits, label } => {
+                let mk = |b: u64| StorageFault::SetWord { entry: *entry, bits: b, label: label.clone() };
+                for b in [
+                    bits & !values::MANT_MASK,
+                    bits & !((1u64 << 32) - 1),
+                    bits & !((1u64 << 16) - 1),
+                    bits & !0xff,
+                    bits & !SIGN,
+                    (bits & !EXP_MASK) | (1023u64 << 52),
+                ] {
+                    if b != *bits {
+                        alts.push(mk(b));
+                    }
+                }
+            }
             _ => {}
         }
         for a in alts {
